@@ -66,8 +66,12 @@ func (c *cluster) leaderDir(i int) string {
 	return filepath.Join(c.dir, fmt.Sprintf("leader%d", i))
 }
 
+// cluFollowQueue, when > 0, is the leaders' MaxFollowQueue (entries queued per follower; the default is 100000): with a
+// small queue a follower that is slow, but connected, fills it
+var cluFollowQueue int
+
 func (c *cluster) openLeaderAt(i int) error {
-	db, err := zenodb.NewDB(&zenodb.DBOpts{Dir: c.leaderDir(i), VirtualTime: true, Passthrough: true, ID: i,
+	db, err := zenodb.NewDB(&zenodb.DBOpts{Dir: c.leaderDir(i), VirtualTime: true, Passthrough: true, ID: i, MaxFollowQueue: cluFollowQueue,
 		NumPartitions: c.P, ClusterQueryConcurrency: 8, ClusterQueryTimeout: 10 * time.Second, IterationCoalesceInterval: time.Millisecond, Panic: quietPanic})
 	if err != nil {
 		return err
@@ -187,7 +191,11 @@ func (c *cluster) openFollower(n *cnode) error {
 									return fmt.Errorf("leader gone")
 								}
 								if atomic.LoadInt32(&n.slow) == 1 {
-									time.Sleep(3 * time.Millisecond)
+									if cluFollowQueue > 0 {
+										time.Sleep(12 * time.Millisecond) // slower than the leader queues: the queue fills
+									} else {
+										time.Sleep(3 * time.Millisecond)
+									}
 								}
 								if err := insert(data, off, source); err != nil {
 									brk()
